@@ -6,6 +6,8 @@
  *   api 3 = VS  : 1 record of one field of order n
  *   api 4 = GR  : n x 1 image with one component          (GRcreate/GRwriteimage, GRgetdatainfo, GRreadimage)
  *   api 5 = SD  : written in two halves with SDwritedata(start), read back with a stride-1 SDreaddata in one piece
+ *   api 6 = DFSD write (DFSDsetNT / DFSDadddata), read back through SD (SDselect 0 / SDreaddata) -- another interface
+ *   api 7 = SD write, read back through DFSD (DFSDgetdims / DFSDgetdata)
  * out : R ok <raw file bytes> | <values read back through the api> | <values read through the second reader or ->
  *       R reject <where>      (the interface does not take this number type at creation)
  *       R fail <where>        (it took the type and failed later)
@@ -35,6 +37,18 @@ static int rawread(int32 off, int32 len, unsigned char *out)
     return got == (size_t)len ? 0 : -1;
 }
 
+/* offset and length of the file's only DFTAG_SD element (plain element) */
+static int find_sd(int32 *off, int32 *len)
+{
+    int32  fid = Hopen(path, DFACC_READ, 0);
+    uint16 t = 0, r = 0;
+    int    rc;
+    if (fid == FAIL) return -1;
+    rc = Hfind(fid, DFTAG_SD, DFREF_WILDCARD, &t, &r, off, len, DF_FORWARD);
+    Hclose(fid);
+    return rc == FAIL ? -1 : 0;
+}
+
 int main(int argc, char **argv)
 {
     if (argc < 3) return 2;
@@ -50,6 +64,13 @@ int main(int argc, char **argv)
         for (long i = 0; i < len; i++) { long b; if (fscanf(f, "%ld", &b) != 1) return 2; mem[i] = (unsigned char)b; }
         const char *where = NULL; int reject = 0;
         int32 off = -1, dlen = -1;
+        /* the single-file interfaces (DFSD) remember the last file by NAME: every case gets a file name of its own */
+        static char pathbuf[4096];
+        static long caseno;
+        const char *base = argv[1];
+        if (path != base) remove(path);
+        snprintf(pathbuf, sizeof pathbuf, "%s.%ld", base, caseno++ % 7);
+        path = pathbuf;
         remove(path);
         if (api == 1 || api == 5) {
             int32 sd = SDstart(path, DFACC_CREATE), dims[1] = {(int32)n}, start[1] = {0}, edge[1] = {(int32)n};
@@ -120,6 +141,37 @@ int main(int argc, char **argv)
                 GRendaccess(ri);
             }
             GRend(gr); Hclose(fid);
+        } else if (api == 6) {
+            int32 dims[1] = {(int32)n}, start[1] = {0}, edge[1] = {(int32)n};
+            DFSDclear();
+            if (DFSDsetdims(1, dims) == FAIL) { where = "DFSDsetdims"; goto done; }
+            if (DFSDsetNT((int32)nt) == FAIL) { reject = 1; where = "DFSDsetNT"; goto done; }
+            if (DFSDadddata(path, 1, dims, mem) == FAIL) { where = "DFSDadddata"; goto done; }
+            int32 sd = SDstart(path, DFACC_READ), sds = FAIL, nds = 0, nat = 0;
+            if (sd != FAIL && SDfileinfo(sd, &nds, &nat) != FAIL)
+                for (int32 k = 0; k < nds; k++) { /* the data set, not a dimension's coordinate variable */
+                    sds = SDselect(sd, k);
+                    if (sds != FAIL && !SDiscoordvar(sds)) break;
+                    if (sds != FAIL) SDendaccess(sds);
+                    sds = FAIL;
+                }
+            if (sds == FAIL) { where = "SDselect(file written by DFSD)"; if (sd != FAIL) SDend(sd); goto done; }
+            if (SDreaddata(sds, start, NULL, edge, back) == FAIL) where = "SDreaddata(file written by DFSD)";
+            SDendaccess(sds); SDend(sd);
+            if (!where && find_sd(&off, &dlen) != 0) where = "Hfind(DFTAG_SD)";
+        } else if (api == 7) {
+            int32 sd = SDstart(path, DFACC_CREATE), dims[1] = {(int32)n}, start[1] = {0}, edge[1] = {(int32)n};
+            int32 sds = sd == FAIL ? FAIL : SDcreate(sd, "d", (int32)nt, 1, dims);
+            if (sds == FAIL) { reject = 1; where = "SDcreate"; if (sd != FAIL) SDend(sd); goto done; }
+            if (SDwritedata(sds, start, NULL, edge, mem) == FAIL) where = "SDwritedata";
+            SDendaccess(sds);
+            if (SDend(sd) == FAIL && !where) where = "SDend";
+            if (where) goto done;
+            if (find_sd(&off, &dlen) != 0) { where = "Hfind(DFTAG_SD)"; goto done; }
+            int rank = 0; int32 rdims[8];
+            DFSDrestart();
+            if (DFSDgetdims(path, &rank, rdims, 8) == FAIL || rank != 1 || rdims[0] != (int32)n) where = "DFSDgetdims(file written by SD)";
+            else if (DFSDgetdata(path, 1, rdims, back) == FAIL) where = "DFSDgetdata(file written by SD)";
         } else { where = "unknown api"; }
         if (!where) {
             if (dlen != (int32)len) where = "data element length differs from n * size";
